@@ -2,7 +2,7 @@
 from __future__ import annotations
 
 from harness.framework import Violation
-from harness.seqprop import SeqProp, slot_kind, slots_of
+from harness.seqprop import indep_fall, SeqProp, slot_kind, slots_of
 from pulser import Pulse
 
 
@@ -68,7 +68,7 @@ class C02(SeqProp):
             exp = slots[-1].tf
             for s in reversed(slots):
                 if isinstance(s.type, Pulse):
-                    exp = max(exp, s.tf + s.type.fall_time(ch, in_eom_mode=seq._schedule[name].in_eom_mode()))
+                    exp = max(exp, s.tf + indep_fall(s.type, ch, seq._schedule[name].in_eom_mode()))
                     break
             if df != exp:
                 slow_eom = (
